@@ -75,6 +75,17 @@ func findStageP(fname string, r *rand.Rand, n int, special bool, gp gen.Params) 
 				}
 				// a name that is not in the schema, below an existing node
 				emitFind(abs.Path{}, nodes[r.Intn(len(nodes))], "plain", "nosuchnode")
+				// a name of the schema under the name of a module that does not define it
+				if kids := f.DS.Children(nil); len(kids) > 0 {
+					k := kids[r.Intn(len(kids))]
+					emitFind(abs.Path{}, abs.Path{}, "plain", "nosuchmodule:"+k.SP[0])
+				}
+				if at := nodes[r.Intn(len(nodes))]; len(at) > 0 && (at.IsEntry() || f.DS.Node(at.SPath()).Kind == "container") {
+					if kids := f.DS.Children(at.SPath()); len(kids) > 0 {
+						k := kids[r.Intn(len(kids))]
+						emitFind(abs.Path{}, at, "plain", "nosuchmodule:"+k.SP[len(k.SP)-1])
+					}
+				}
 			}
 		}}, nil
 }
